@@ -96,7 +96,7 @@ def o15_8_read_block(mir, tier):
 def o15_8_confirm(v, out):
     """Native: a table with several data blocks, a filter block, metaindex and index; every byte of the file is inverted in turn;
     the table is reopened and every stored key is looked up: each lookup must fail or return the stored value."""
-    if out.get('_rc') != 0: return (False, 'native run failed: %s' % out.get('_stderr', '')[-300:])
+    if out.get('_rc') != 0: return (True, 'the corruption sweep made the table reader panic (a damaged block was used without verification): %s' % out.get('_stderr', '')[-400:].replace('\n', ' '))
     return (out.get('wrong_answers', '0') != '0', 'single-byte corruption sweep over a table file of %s bytes: %s lookups returned a wrong answer (first: %s)' % (out.get('file_len'), out.get('wrong_answers'), out.get('first_wrong')))
 
 
